@@ -74,6 +74,12 @@ func (c *PushedAuthorizeHandler) HandlePushedAuthorizeEndpointRequest(ctx contex
 	requestURI := fmt.Sprintf("%s%s", configProvider.GetPushedAuthorizeRequestURIPrefix(ctx), b64.EncodeToString(stateKey))
 
 	// store
+	// The pushed request is stored as-is and merged into the later authorization request. The credentials the client
+	// authenticated this request with have served their purpose and must not reach the storage layer in cleartext.
+	for _, key := range []string{"client_secret", "client_assertion", "client_assertion_type"} {
+		ar.GetRequestForm().Del(key)
+	}
+
 	if err = storage.CreatePARSession(ctx, requestURI, ar); err != nil {
 		return errorsx.WithStack(fosite.ErrServerError.WithHint("Unable to store the PAR session").WithWrap(err).WithDebug(err.Error()))
 	}
